@@ -65,7 +65,7 @@ def main():
             pid = f"C{i:02d}"
             rc, o = sh(f"./check {pid} --tier quick --repo {wt}", cwd=VERIF, env=dict(os.environ, VERIF_NO_EVIDENCE="1"))
             if rc == 1:
-                keys = re.findall(r"\[(C\d\d\.R[^|\]]*)\|", o)
+                keys = re.findall(r"\[(C\d\d\.R[^|\]]*)\|", "\n".join(l for l in o.splitlines() if not l.startswith("KNOWN-FINDING")))
                 caught[pid] = sorted(set(keys))[:6]
             elif rc == 2:
                 errors[pid] = [l for l in o.splitlines() if "ANALYSIS-ERROR" in l][:1]
